@@ -285,6 +285,7 @@ def r4(idx, rep):
     # Matcher.header_index: int passes through, numeric string → int, else the csvpath's header index; CsvPath.header_index: position or None
     header_index_sequences(idx, rep, "R4")
     header_value_sequence(idx, rep, "R4")
+    reset_table(idx, rep, "R4")
 
 
 def r5(idx, rep):
@@ -381,6 +382,53 @@ def header_index_sequences(idx, rep, rid):
         if len(ps) != 1 or ps[0].result != ("return", want):
             bad = bad or f"{label}: headers {hs0}, steps {steps}: header_index answers {[p.result for p in ps][:2]}, documented {want} (the first column with that name in the headers as they are now)"
     rep.check(bad is None, rid, f"{fh.file}::CsvPath.header_index sequences", bad or f"{n} scenarios", K.where(fh, fh.node))
+    # the same sequences asked of the matcher (what #name goes through): an int and a numeric string are positions, a name is the first
+    # column the csvpath's headers have under that name now
+    fm = idx.method("Matcher", "header_index")
+    frh = idx.method("ResetHeaders", "_decide_match")
+    rep.analysed(fm, frh)
+    mbase = K.instance_store(idx, "CsvPath", selfkey="self.csvpath")
+    mbase.update({k: v for k, v in K.instance_store(idx, "Matcher").items() if not k.startswith("self.csvpath")})
+    HK = "self.csvpath." + K.names(idx)["headers"]
+    bad = None
+    n = 0
+    for label, steps, hs0 in scenarios:
+        steps = list(steps) + [("look", 1), ("look", "2")]
+
+        def mprogram(it, steps=steps):
+            out = []
+            for op, arg in steps:
+                if op == "look":
+                    out.append(it.call_function(fm, {"__pos__": [arg]}, "self"))
+                elif op == "append":
+                    it.store[HK].append(arg)
+                else:
+                    # a new header row arrives the way it does in a run: reset_headers() on the line that holds it
+                    it.store["self.line"] = list(arg)
+                    it.call_function(frh, {"skip": []}, "RH")
+            return out
+
+        it = Interp(idx, types={"self": "Matcher", "self.csvpath": "CsvPath", FM.EU: FM.EU, "RH": "ResetHeaders", "LineCounter": "LineCounter"}, unknown_calls="residual",
+                    inline={"CsvPath.headers", "CsvPath.header_index", "LineCounter.clean_headers"} | FM.EU_INLINE, handlers={"math.isnan": FM._isnan},
+                    domains={"RH.default_match()": [True]})
+        st = dict(mbase)
+        st.update({"RH.matcher": Obj("self"), "RH.children": [], "self.csvpath.variables": {}})
+        st[HK] = None if hs0 is None else list(hs0)
+        ps = it.run_program(mprogram, st)
+        n += 1
+        hs = None if hs0 is None else list(hs0)
+        want = []
+        for op, arg in steps:
+            if op == "look":
+                want.append(arg if isinstance(arg, int) else int(arg) if arg.isdecimal() else None if not hs else first(hs, arg))
+            elif op == "append":
+                hs.append(arg)
+            else:
+                hs = list(arg)
+        if len(ps) != 1 or ps[0].result != ("return", want):
+            bad = bad or (f"{label}: headers {hs0}, steps {steps}: Matcher.header_index answers {[p.result for p in ps][:2]}, documented {want} (a position as it is; a name is the first "
+                          "column with that name in the headers as they are now — the column CsvPath.header_index, header_name() and the #index form address)")
+    rep.check(bad is None, rid, f"{fm.file}::Matcher.header_index sequences", bad or f"{n} scenarios", K.where(fm, fm.node))
 
 
 def header_value_sequence(idx, rep, rid):
@@ -389,8 +437,10 @@ def header_value_sequence(idx, rep, rid):
     fi = idx.method("Header", "to_value")
     rep.analysed(fi)
     st0 = K.instance_store(idx, "Header")
-    steps = [(["a", "b"], ["1", "2"], "b", "2"), (["a", "b"], ["3", "4"], "b", "4"), (["b", "a"], ["5", "6"], "b", "5"), (["x", "b", "y"], ["7", "8", "9"], "b", "8"),
-             (["x", "y"], ["7", "8"], "b", None)]
+    frs = idx.method("Header", "reset")
+    rep.analysed(frs)
+    steps = [(["a", "b"], ["1", "2"], "b", "2"), (["a", "b"], ["3"], "b", None), (["a", "b"], ["3", "4"], "b", "4"), (["b", "a"], ["5", "6"], "b", "5"),
+             (["x", "b", "y"], ["7", "8", "9"], "b", "8"), (["x", "y"], ["7", "8"], "b", None), (["x", "b"], ["7", ""], "b", ""), (["x", "b"], ["7", "9"], "b", "9")]
     state = {}
 
     def program(it):
@@ -398,13 +448,12 @@ def header_value_sequence(idx, rep, rid):
         for headers, line, name, _ in steps:
             state["headers"] = headers
             it.store["self.matcher.line"] = list(line)
-            it.store["self.value"] = -9999999999   # Header.reset() between lines
-            it.store["self.match"] = None
+            it.call_function(frs, {"__pos__": []}, "self")   # the matcher resets every component between lines
             out.append(it.call_function(fi, {"skip": []}, "self"))
         return out
 
     st = dict(st0)
-    st.update({"self.name": "b", "Header.NEVER": -9999999999})
+    st.update({"self.name": "b", "Header.NEVER": -9999999999, "self.children": []})
     it = Interp(idx, types={"self": "Header", FM.EU: FM.EU}, inline=FM.EU_INLINE, unknown_calls="residual",
                 handlers={"self.matcher.header_index": lambda i, c, r, a, k: (state["headers"].index(a[0]) if a[0] in state["headers"] else None), "math.isnan": FM._isnan},
                 domains={"self.asbool": [False]})
@@ -412,3 +461,26 @@ def header_value_sequence(idx, rep, rid):
     want = [w for _, _, _, w in steps]
     ok = len(ps) == 1 and ps[0].result == ("return", want)
     rep.check(ok, rid, f"{fi.file}::Header.to_value over a header change", f"headers/lines {[(h, l) for h, l, _, _ in steps]}: #b reads {[p.result for p in ps][:2]}, documented {want}", K.where(fi, fi.node))
+
+
+def reset_table(idx, rep, rid):
+    """Matchable.reset (what the matcher calls on every expression between lines) reaches every child whatever the child holds: a component
+    that answered None / '' / False on the last line is as much in need of a reset as one that answered a value"""
+    fi = idx.method("Matchable", "reset")
+    rep.analysed(fi)
+    kids = []
+    st = {}
+    for n, (leaf, val, mt) in enumerate(itertools.product((True, False), (None, "", 0, "v"), (None, False, True))):
+        nm = f"k{n}"
+        kids.append(Obj(nm))
+        st[f"{nm}.children"] = [] if leaf else [Obj(nm + "x")]
+        st[f"{nm}.value"] = val
+        st[f"{nm}.match"] = mt
+    st["self.children"] = kids
+    it = Interp(idx, types={"self": "Matchable"}, unknown_calls="residual", handlers={".reset": lambda i, c, r, a, k: i.record_call("reset", r.name)})
+    ps = it.run_all(fi, store=st)
+    got = [v for kk, v in ps[0].calls("reset")] if len(ps) == 1 else None
+    want = [k.name for k in kids]
+    miss = [f"{k} (children {st[k + '.children']}, value {st[k + '.value']!r}, match {st[k + '.match']!r})" for k in want if got is None or got.count(k) != 1]
+    rep.check(len(ps) == 1 and not miss, rid, f"{fi.file}::Matchable.reset reaches every child",
+              f"{len(ps)} path(s); children not reset exactly once: {miss[:3]} — such a component keeps last line's answer on the next line", K.where(fi, fi.node))
